@@ -106,7 +106,7 @@ def run(ctx):
                       "a batch item must store the pre_verify-normalised key and signature together with the challenge "
                       "computed for them (otherwise an item that verifies alone is rejected in a batch)", g.loc)
         if key.endswith("verify_signature") and len(pv) == 1:
-            tails = [v.cx.call(t, (g.key, b)) for (b, k, t) in ret_writes(g) if k == "call"]
+            tails = tail_results(P, g, v)
             pre = lambda k: (lambda t: t[0] == "field" and t[3] == str(k) and t[1][0] == "ok" and is_call(t[1][1], name="pre_verify"))
             good = len(tails) == 1 and is_call(tails[0], name="verify_prehashed") and pre(2)(tails[0][2][0]) and pre(1)(tails[0][2][2]) and \
                 tails[0][2][1][0] == "ok" and is_call(tails[0][2][1][1], name="challenge")
